@@ -326,6 +326,43 @@ def r1d_type_instances_own_their_fields(ctx, sym):
     ctx.floor('R1', 'Type subclasses with their own constructor', n, 10)
 
 
+def r1e_registration_path(ctx, sym):
+    """register_builtin_module and reset_builtin_modules executed abstractly with a model loader that builds a new type
+    object on every call: after each reset the module table holds an object the loader built for that reset - a
+    memoised loader hands the same mutable ModuleType to every analysis of the process."""
+    from .. import symexec
+    from ..fdeval import Obj, Raised, Inconclusive
+    tmod = ctx.repo.module('pedal.types.new_types')
+    reg = tmod.func('register_builtin_module')
+    reset = tmod.func('reset_builtin_modules')
+    ctx.analysed_function(tmod, reg)
+    ctx.analysed_function(tmod, reset)
+    built = []
+
+    def loader(*a, **k):
+        o = Obj('ModuleType built by the loader (call %d)' % (len(built) + 1))
+        built.append(o)
+        return o
+    loader._fd_callable = True
+    loaders, modules = {}, {}
+    fd = symexec.new_fd(sym, tmod, extra={'_MODULE_LOADERS': loaders, 'BUILTIN_MODULES': modules})
+    seen = []
+    try:
+        fd.call_function(reg, ['model_module', loader])
+        for _ in range(3):
+            fd.call_function(reset, [])
+            seen.append(modules.get('model_module'))
+    except Raised as e:
+        seen = ['raises %s' % e.kind]
+    except Inconclusive as e:
+        raise AnalysisError("C13 R1: register_builtin_module / reset_builtin_modules outside the decidable fragment: %s" % e)
+    ok = len(seen) == 3 and all(isinstance(x, Obj) for x in seen) and len({id(x) for x in seen}) == 3
+    ctx.check(ok, 'R1', 'reset_builtin_modules:fresh-module-types', tmod, reset,
+              "three resets in a row leave the module table with %r (the loader ran %d time(s))" % (seen, len(built)),
+              "submission 1 assigns `turtle.forward = 50`; submission 2, graded afterwards, gets 'not a function' for "
+              "turtle.forward(100)")
+
+
 def r1b_reset_rebuilds(ctx, sym):
     """reset_builtin_modules, executed abstractly on a pre-filled table, must leave no entry of the previous analysis."""
     from ..fdeval import FD, Raised, Inconclusive
@@ -686,6 +723,7 @@ def run(ctx):
     r1_inventory(ctx, sym)
     r1b_reset_rebuilds(ctx, sym)
     r1c_loaders_build_fresh_types(ctx, sym)
+    r1e_registration_path(ctx, sym)
     r1d_type_instances_own_their_fields(ctx, sym)
     r2_clear_complete(ctx, sym)
     r3_lazy_tool_reset(ctx, sym)
